@@ -45,7 +45,7 @@ def first_member(t):
     return fs[0] if fs else None
 
 
-def zero_literal_bad(t):
+def zero_literal_bad(t, cc="clang"):
     """cemitter.add_zeroed_type_literal emits `{0}` unless the type is empty (`{}`) or is a record whose
     first field is empty (`{{}}`).  `{0}` is rejected by clang ("initializer for aggregate with no elements
     requires explicit braces") when brace elision reaches an aggregate without elements: recorded finding,
@@ -62,6 +62,9 @@ def zero_literal_bad(t):
     while cur is not None and cur[0] not in ("p", "ptr"):
         nxt = first_member(cur)
         if nxt is None:
+            # gcc only warns, except for a zero-length array of records/unions ("incompatible types")
+            if cc == "gcc":
+                return cur[0] == "arr" and cur[2][0] in ("rec", "uni")
             return True
         cur = nxt
     return False
